@@ -56,4 +56,3 @@ func phaseRegistry(n, iters int, stats map[string]int) {
 	wg.Wait()
 	stats["registry_ops"] = n * iters * 2
 }
-
